@@ -73,7 +73,7 @@ func (va *validity) may(v ssa.Value, seen map[ssa.Value]bool) bool {
 	case *ssa.Phi:
 		for i, e := range x.Edges {
 			// a value tested valid before it flows in stays valid
-			if guardedValid(e, x.Block().Preds[i]) {
+			if guardedValid(e, x.Block().Preds[i]) || validOnEdge(e, x.Block().Preds[i], x.Block()) {
 				continue
 			}
 			if va.may(e, seen) {
@@ -163,7 +163,7 @@ func guardedValid1(v ssa.Value, b *ssa.BasicBlock) bool {
 					}
 					for _, r3 := range *bo.Referrers() {
 						if iff, ok := r3.(*ssa.If); ok {
-							if t := iff.Block().Succs[0]; len(t.Preds) == 1 && (t.Dominates(b) || t == b) {
+							if edgeHolds(iff.Block(), 0, b) {
 								return true
 							}
 						}
@@ -177,14 +177,14 @@ func guardedValid1(v ssa.Value, b *ssa.BasicBlock) bool {
 		for _, r2 := range *c.Referrers() {
 			switch y := r2.(type) {
 			case *ssa.If:
-				if t := y.Block().Succs[0]; len(t.Preds) == 1 && (t.Dominates(b) || t == b) {
+				if edgeHolds(y.Block(), 0, b) {
 					return true
 				}
 			case *ssa.UnOp:
 				if y.Op == token.NOT {
 					for _, r3 := range *y.Referrers() {
 						if iff, ok := r3.(*ssa.If); ok {
-							if f := iff.Block().Succs[1]; len(f.Preds) == 1 && f.Dominates(b) {
+							if edgeHolds(iff.Block(), 1, b) {
 								return true
 							}
 						}
@@ -320,4 +320,49 @@ func (va *validity) fixpoint(growFields bool) {
 			break
 		}
 	}
+}
+
+// edgeHolds: what is known on the edge from's i-th successor holds at block b:
+// the successor dominates b and is entered only through that edge or through
+// back edges from blocks it dominates itself (a loop header right after the test).
+func edgeHolds(from *ssa.BasicBlock, i int, b *ssa.BasicBlock) bool {
+	t := from.Succs[i]
+	if from.Succs[1-i] == t {
+		return false
+	}
+	if !(t == b || t.Dominates(b)) {
+		return false
+	}
+	for _, p := range t.Preds {
+		if p != from && !t.Dominates(p) {
+			return false
+		}
+	}
+	return true
+}
+
+// validOnEdge: block pred ends in a test of v's validity and the edge pred→to is its valid side.
+func validOnEdge(v ssa.Value, pred, to *ssa.BasicBlock) bool {
+	iff, ok := pred.Instrs[len(pred.Instrs)-1].(*ssa.If)
+	if !ok || pred.Succs[0] == pred.Succs[1] {
+		return false
+	}
+	cond := iff.Cond
+	neg := false
+	if u, ok := cond.(*ssa.UnOp); ok && u.Op == token.NOT {
+		cond, neg = u.X, true
+	}
+	c, ok := cond.(*ssa.Call)
+	if !ok || c.Call.StaticCallee() == nil || len(c.Call.Args) == 0 || c.Call.Args[0] != v {
+		return false
+	}
+	switch qualifiedFnName(c.Call.StaticCallee()) {
+	case "(reflect.Value).IsValid", "(reflect.Value).CanAddr", "(reflect.Value).CanSet", "(reflect.Value).CanInterface":
+	default:
+		return false
+	}
+	if neg {
+		return pred.Succs[1] == to
+	}
+	return pred.Succs[0] == to
 }
